@@ -47,8 +47,8 @@ import (
 //	            extents are truncated to it by filterRecentExtents
 //	   poison = the downstream answers every (sub-)request whose range contains this timestamp with
 //	            "Cache-Control: no-store" (shouldCacheResponse is false for it); "-" = none
-//	   reqs   = <start>:<end>:<step>:<flush 0|1>,…   steps multiples of 60000; flush = the cache loses everything
-//	            before this request
+//	   reqs   = <start>:<end>:<step>:<loss 0|1|2|3>,…   steps multiples of 60000; before the request the cache loses
+//	            nothing / everything / the keys with an even / odd split-interval index
 //	   (skipped:slow when the history took more than 20 s of wall clock: the cut-off would have moved)
 //
 // Oracle: every response equals the direct evaluation of the (step-aligned, when align = 1) request against the
@@ -220,7 +220,7 @@ func (d *c42Downstream) RoundTrip(r *http.Request) (*http.Response, error) {
 	return hr, err
 }
 
-// mapCache is an in-memory cortex cache that never evicts.
+// mapCache is an in-memory cortex cache that loses entries only when told to (clear, evictParity).
 type mapCache struct {
 	mu sync.Mutex
 	m  map[string][]byte
@@ -254,6 +254,32 @@ func (c *mapCache) clear() {
 	c.mu.Lock()
 	defer c.mu.Unlock()
 	c.m = map[string][]byte{}
+}
+
+// evictParity drops the entries whose split-interval index (the bucket of the cache key
+// "fe:t:m:<step>:<split>:<bucket>:…" recorded inside the cached value) has the given parity.
+func (c *mapCache) evictParity(p int64) (evicted int) {
+	c.mu.Lock()
+	defer c.mu.Unlock()
+	for k, b := range c.m {
+		var cr queryrange.CachedResponse
+		if err := cr.Unmarshal(b); err != nil {
+			panic("verif: cached value does not decode: " + err.Error())
+		}
+		f := strings.Split(cr.Key, ":")
+		if len(f) < 6 {
+			panic("verif: unexpected cache key " + cr.Key)
+		}
+		idx, ok := atoi64(f[5])
+		if !ok {
+			panic("verif: unexpected cache key " + cr.Key)
+		}
+		if idx%2 == p {
+			delete(c.m, k)
+			evicted++
+		}
+	}
+	return
 }
 
 func c42Tripper(align bool, splitMs int64, down http.RoundTripper) (http.RoundTripper, error) {
@@ -311,15 +337,15 @@ func execC42Fresh(c *hlib.Ctx, tok []string) string {
 		return "bad-op"
 	}
 	var reqs []c42Req
-	var flush []bool
+	var flush []int64
 	for _, e := range hlib.Split(tok[5], ",") {
 		p := strings.Split(e, ":")
 		if len(p) != 4 {
 			return "bad-op"
 		}
 		v, ok := ints(p[:3])
-		fl, okf := boolTok(p[3])
-		if !ok || !okf || v[0] < 0 || v[1] < v[0] || v[2] <= 0 || v[0]%1000 != 0 || v[1]%1000 != 0 || v[2]%60000 != 0 {
+		fl, okf := atoi64(p[3])
+		if !ok || !okf || fl < 0 || fl > 3 || len(p[3]) != 1 || v[0] < 0 || v[1] < v[0] || v[2] <= 0 || v[0]%1000 != 0 || v[1]%1000 != 0 || v[2]%60000 != 0 {
 			return "bad-op"
 		}
 		reqs = append(reqs, c42Req{v[0], v[1], v[2]})
@@ -347,8 +373,13 @@ func execC42Fresh(c *hlib.Ctx, tok []string) string {
 	}
 	var bads []bad
 	for i, q := range reqs {
-		if flush[i] {
+		switch flush[i] {
+		case 1:
 			mc.clear()
+		case 2, 3:
+			if mc.evictParity(flush[i]-2) > 0 {
+				c.Count("fresh:evicted-some")
+			}
 		}
 		got, err := c42Ask(rt, codec, q)
 		calls := down.takeCalls()
@@ -510,7 +541,7 @@ func genC42(c *hlib.Ctx) {
 }
 
 // genC42Fresh: histories around the freshness cut-off B + 30 s (B a few minutes to two hours ago), with an optional
-// no-store timestamp and cache flushes.
+// no-store timestamp, cache flushes and evictions of single keys.
 func genC42Fresh(c *hlib.Ctx, r *hlib.Rand) string {
 	now := time.Now().UnixMilli()
 	B := (now - int64(r.Range(3, 120))*60000) / 60000 * 60000
@@ -575,11 +606,15 @@ func genC42Fresh(c *hlib.Ctx, r *hlib.Rand) string {
 		if (e-s)/step > 250 {
 			e = s + 250*step
 		}
-		fl := r.Chance(1, 8)
-		if fl {
+		fl := 0
+		if r.Chance(1, 8) {
+			fl = 1
 			c.Count("fresh:flush")
+		} else if r.Chance(1, 5) {
+			fl = 2 + r.Intn(2)
+			c.Count("fresh:evict-parity")
 		}
-		rs = append(rs, fmt.Sprintf("%d:%d:%d:%s", s, e, step, b01(fl)))
+		rs = append(rs, fmt.Sprintf("%d:%d:%d:%d", s, e, step, fl))
 	}
 	return fmt.Sprintf("cache.fresh %d %d %s %s %s", B, split, poison, strings.Join(ds, ";"), strings.Join(rs, ","))
 }
